@@ -573,65 +573,75 @@ func CompleteIteration(p *load.Prog, r *oblig.Report, rule string, specs []strin
 			r.Unknown(rule, construct, "-", "function not found")
 			continue
 		}
-		hasErr := false
-		if fd.Type.Results != nil {
-			for _, f := range fd.Type.Results.List {
-				if tv, ok := pk.TypesInfo.Types[f.Type]; ok && types.Identical(tv.Type, errorType) {
-					hasErr = true
-				}
-			}
-		}
 		bad := 0
 		loops := 0
-		var walk func(n ast.Node, inLoop bool, inSwitch bool)
-		walk = func(n ast.Node, inLoop, inSwitch bool) {
-			ast.Inspect(n, func(m ast.Node) bool {
-				if m == nil || m == n {
-					return true
-				}
-				switch s := m.(type) {
-				case *ast.FuncLit:
-					return false
-				case *ast.RangeStmt:
-					if tv, ok := pk.TypesInfo.Types[s.X]; ok {
-						if _, isSlice := tv.Type.Underlying().(*types.Slice); isSlice {
-							loops++
-							walk(s.Body, true, false)
-							return false
-						}
+		// the loop may live in an unexported helper the function delegates to: consulted only when the
+		// function has no loop of its own
+		for hi, hd := range p.WithHelpers(pk, fd, 1) {
+			if hi > 0 && loops > 0 {
+				break
+			}
+			if hi == 1 {
+				bad = 0
+			}
+			hasErr := false
+			if hd.Type.Results != nil {
+				for _, f := range hd.Type.Results.List {
+					if tv, ok := pk.TypesInfo.Types[f.Type]; ok && types.Identical(tv.Type, errorType) {
+						hasErr = true
 					}
-				case *ast.ForStmt:
-					loops++
-					walk(s.Body, true, false)
-					return false
-				case *ast.SwitchStmt, *ast.TypeSwitchStmt, *ast.SelectStmt:
-					walk(s, inLoop, true)
-					return false
-				case *ast.ReturnStmt:
-					if !inLoop {
+				}
+			}
+			var walk func(n ast.Node, inLoop bool, inSwitch bool)
+			walk = func(n ast.Node, inLoop, inSwitch bool) {
+				ast.Inspect(n, func(m ast.Node) bool {
+					if m == nil || m == n {
 						return true
 					}
-					ok := false
-					if hasErr && len(s.Results) > 0 {
-						last := s.Results[len(s.Results)-1]
-						if tv, found := pk.TypesInfo.Types[last]; found && !tv.IsNil() {
-							ok = true
+					switch s := m.(type) {
+					case *ast.FuncLit:
+						return false
+					case *ast.RangeStmt:
+						if tv, ok := pk.TypesInfo.Types[s.X]; ok {
+							if _, isSlice := tv.Type.Underlying().(*types.Slice); isSlice {
+								loops++
+								walk(s.Body, true, false)
+								return false
+							}
+						}
+					case *ast.ForStmt:
+						loops++
+						walk(s.Body, true, false)
+						return false
+					case *ast.SwitchStmt, *ast.TypeSwitchStmt, *ast.SelectStmt:
+						walk(s, inLoop, true)
+						return false
+					case *ast.ReturnStmt:
+						if !inLoop {
+							return true
+						}
+						ok := false
+						if hasErr && len(s.Results) > 0 {
+							last := s.Results[len(s.Results)-1]
+							if tv, found := pk.TypesInfo.Types[last]; found && !tv.IsNil() {
+								ok = true
+							}
+						}
+						if !ok {
+							bad++
+							r.Bad(rule, construct, p.Pos(s.Pos()), "a loop over operands/restrictions is left by a return that does not report an error: the remaining elements are silently skipped")
+						}
+					case *ast.BranchStmt:
+						if inLoop && s.Tok == token.BREAK && !inSwitch {
+							bad++
+							r.Bad(rule, construct, p.Pos(s.Pos()), "a loop over operands/restrictions is left by break: the remaining elements are silently skipped")
 						}
 					}
-					if !ok {
-						bad++
-						r.Bad(rule, construct, p.Pos(s.Pos()), "a loop over operands/restrictions is left by a return that does not report an error: the remaining elements are silently skipped")
-					}
-				case *ast.BranchStmt:
-					if inLoop && s.Tok == token.BREAK && !inSwitch {
-						bad++
-						r.Bad(rule, construct, p.Pos(s.Pos()), "a loop over operands/restrictions is left by break: the remaining elements are silently skipped")
-					}
-				}
-				return true
-			})
+					return true
+				})
+			}
+			walk(hd.Body, false, false)
 		}
-		walk(fd.Body, false, false)
 		if loops == 0 {
 			r.Unknown(rule, construct, p.Pos(fd.Pos()), "no loop found: anchor no longer resolves")
 		} else if bad == 0 {
